@@ -463,7 +463,12 @@ class Registry:
                 parts = []
                 for fname, ftyp in typ.fields.items():
                     if fname not in v.fields:
-                        return False
+                        # a plain class attribute (constant) read through the instance, e.g. HAS_MEMORY_ID_BLOCK
+                        cv = getattr(v.cls, fname, UNSET := object())
+                        if cv is UNSET or callable(cv) or isinstance(cv, property):
+                            return False
+                        parts.append(self.conforms(it, cv, ftyp, f"{name}.{fname}"))
+                        continue
                     parts.append(self.conforms(it, v.fields[fname], ftyp, f"{name}.{fname}"))
                 return self._conj(parts)
             if type(v) is cls:
